@@ -34,6 +34,23 @@ RULE = ("SCALE SWEEP in every stream: all lengths of a case are multiplied by a 
         "selection rotated by one); with_vertices of a coordinate array is also called with vertices other than its own; "
         "after every call the arrays handed in (indices, vertices, coordinates, the selection, "
         "the replacement vertices) and the shape's attributes must be unchanged and a second read must equal the first. "
+        "INPUT KINDS (phase 4; the value of every entry is the same in all kinds, so the model case is unchanged): vertex arrays as float64, "
+        "int64 (integer coordinates), float32 (only where every operation is exact in 24 bits), strided views of larger arrays, Fortran order, "
+        "read-only arrays, aa.Grid2DIrregular; index arrays as int64 / int32 / uint8 / strided / read-only; coordinate arrays as int64 / int32 / "
+        "int8 / integer-valued float64 / strided / read-only; selections as ndarray (int64, int32, read-only), Python list, negative "
+        "(wrap-around) positions and boolean masks; side and offsets as float / int / numpy scalar; constructor arguments that have their "
+        "DEFAULT value left out (side_length, x_offset, y_offset, flipped; scale of for_limits_and_scale), positional and keyword calls; Shape "
+        "arguments as floats / numpy scalars / ints / tuples / lists / ndarrays, positional or keyword, through a user SUBCLASS of each Shape "
+        "class and through the pytree round trip tree_unflatten(tree_flatten()). "
+        "DIRECTED RARE STATES: every non-point shape accepts a triangle by its own test of the triangle's centroid OR by the inherited "
+        "reference-point test; shapes are searched (exact rational evaluation of both tests, sizes of width / height / radius / corner offsets "
+        "independent from 1/16 to 3 scales, candidates aimed at the centroid of another triangle) until the set is in the state "
+        "'mixed' (one triangle accepted only by the centroid test AND another only by the reference point: elongated boxes, small "
+        "circles near a corner, thin triangles through the transposed test), 'ref_only', 'own_only' or 'unsorted' (box with top > bottom / "
+        "left > right, negative radius); every session and chain contains such a shape; every (lattice parity, flipped) state of a single "
+        "cell, an edge-sharing pair and a column of three goes through neighborhood / up_sample / triangles, also after up_sample(). "
+        "SIBLINGS: for_grid (= for_limits_and_scale of the grid's extreme coordinates and pixel scale), .means, iteration and len of both "
+        "classes are read with .triangles; sessions also re-wire an index row in place (A.indices[r] = ...) between reads. "
         "Comparisons: exact rationals wherever every double operation is exact (checked per case by replaying the arithmetic in rationals); "
         "Non-trivial = at least two triangles; distinct = distinct JSON input.")
 EXHAUSTIVE = {}
@@ -56,7 +73,10 @@ ASSUMPTIONS = ["real arithmetic (no rounding); coincident corners computed along
 
 _skipped = {"in_band": 0, "steps_in_band": 0}
 def extra_evidence():
-    return {"skipped_in_band": _skipped["in_band"], "session_steps_skipped_in_band": _skipped["steps_in_band"]}
+    return {"skipped_in_band": _skipped["in_band"], "session_steps_skipped_in_band": _skipped["steps_in_band"],
+            "directed_shape_states": dict(_directed), "input_kinds": dict(_kinds)}
+_kinds = {}
+def note_kind(k): _kinds[k] = _kinds.get(k, 0) + 1
 
 SIDES = [Fraction(1, 4), Fraction(1, 2), Fraction(1), Fraction(3, 2), Fraction(2), Fraction(3)]
 MARGIN = Fraction(1, 10 ** 6)
@@ -67,11 +87,18 @@ MAXMAG = 2 ** 30                    # largest coordinate / side that the generat
 def F(s): return Fraction(s)
 def S(x): return str(Fraction(x))
 
-def rep(x):
-    """is the rational x a double?"""
+def rep(x, bits=53):
+    """is the rational x a double (bits=53) / a float32 (bits=24)?"""
     x = Fraction(x)
-    try: return Fraction(float(x)) == x
-    except OverflowError: return False
+    if bits == 53:
+        try: return Fraction(float(x)) == x
+        except OverflowError: return False
+    d = x.denominator
+    if d & (d - 1): return False
+    n = abs(x.numerator)
+    if n == 0: return True
+    n >>= (n & -n).bit_length() - 1
+    return n.bit_length() <= bits and Fraction(1, 2 ** 100) <= abs(x) <= 2 ** 100
 
 def pow2_floor(x):
     x = Fraction(x)
@@ -189,7 +216,8 @@ def gen_coord(rng, sc=None, small=False):
 
 SIZES = [Fraction(0), Fraction(0), Fraction(1, 64), Fraction(1, 16), Fraction(1, 4), Fraction(1, 4), Fraction(1, 2), Fraction(3, 4),
          Fraction(1), Fraction(3, 2), Fraction(2), Fraction(3)]
-def gen_shape(rng, inside=False):
+WANTS = ["mixed", "mixed", "mixed", "ref_only", "own_only"]
+def gen_shape(rng, inside=False, want=None):
     """shape described relative to a target triangle: barycentric position of its reference point; sizes in units of the
     set's scale"""
     kind = rng.choice(["point", "point", "circle", "square", "triangle", "polygon"])
@@ -206,10 +234,17 @@ def gen_shape(rng, inside=False):
     elif pos == "corner": bc = rng.choice([[Fraction(1), Fraction(0)], [Fraction(0), Fraction(1)], [Fraction(0), Fraction(0)]])
     elif pos == "outside": bc = [Fraction(rng.randint(-den, 2 * den), den), Fraction(rng.randint(-den, 2 * den), den)]
     else: bc = [Fraction(rng.randint(-20, 20)), Fraction(rng.randint(-20, 20))]
-    return {"kind": kind, "bc": [S(x) for x in bc], "which": rng.randrange(10 ** 6),
-            "size": S(rng.choice(SIZES)), "aspect": S(Fraction(rng.randint(1, 12), 4)),
-            "dscale": S(rng.choice([Fraction(1, 16), Fraction(1, 4), Fraction(1), Fraction(1)])),
-            "seed": rng.randrange(10 ** 9)}
+    d = {"kind": kind, "bc": [S(x) for x in bc], "which": rng.randrange(10 ** 6),
+         "size": S(rng.choice(SIZES)), "aspect": S(Fraction(rng.randint(1, 12), 4)),
+         "dscale": S(rng.choice([Fraction(1, 16), Fraction(1, 4), Fraction(1), Fraction(1)])),
+         "seed": rng.randrange(10 ** 9)}
+    r2 = random.Random(d["seed"] + 1)          # (a separate stream: the cases above stay what they were)
+    d["pk"] = r2.choice(PKINDS)
+    if want:
+        d["kind"] = r2.choice(["circle", "square", "square", "triangle", "polygon"]) if want is True or kind == "point" else kind
+        d["want"] = r2.choice(WANTS) if want is True else want
+        if d["want"] == "mixed" and d["kind"] == "square" and r2.random() < 0.2: d["want"] = "unsorted"
+    return d
 
 A_STEPS = ["recontain", "tris", "tris", "area", "up", "up", "nbr", "for", "with", "contain", "contain", "contain", "edit", "edit",
            "move_up", "move_nbr", "move_for", "move_with"]
@@ -226,28 +261,90 @@ def gen_steps(rng, names, n):
         if k in ("contain", "recontain"):
             st["slot"] = nslot % 2 if nslot < 2 else rng.randrange(2)
             nslot += 1
-            st["shape"] = gen_shape(rng, inside=k == "recontain")          # used when the slot is still empty
+            st["shape"] = gen_shape(rng, inside=k == "recontain", want=True if (k == "contain" and nslot % 2 == 0) else None)   # used when the slot is still empty
         steps.append(st)
     return steps
+
+def with_kinds(rng, A, session=False):
+    A["vk"] = rng.choice(["f64", "f64", "view", "fortran", "ro"] if session else VKINDS); A["ik"] = rng.choice(IKINDS)
+    return A
+def gen_array_k(rng, session=False, vk=None):
+    """an ArrayTriangles input with its storage kinds; integer storage needs integer coordinates"""
+    if vk is None: vk = rng.choice(["f64", "f64", "view", "fortran", "ro"] if session else VKINDS)
+    if vk == "int":
+        # mostly the smallest integer scale, every coordinate jittered by 0 / 1: corner sums are odd, midpoints half-integers
+        # (a result buffer that inherits the integer dtype truncates them)
+        small = rng.random() < 0.75
+        sc = Fraction(4 * 2 ** (0 if small else rng.randint(1, 12)))
+        A = gen_array(rng, sc=sc, off=[sc * rng.randint(-6, 6), sc * rng.randint(-6, 6)])
+        if small: A["verts"] = [[S(F(v[0]) + rng.randint(0, 1)), S(F(v[1]) + rng.randint(0, 1))] for v in A["verts"]]
+    elif vk == "f32":
+        sc = pick_scale(rng)
+        A = gen_array(rng, sc=sc, off=[sc * Fraction(rng.randint(-24, 24), 4), sc * Fraction(rng.randint(-24, 24), 4)])
+    else: A = gen_array(rng)
+    A["vk"] = vk; A["ik"] = rng.choice(IKINDS)
+    return A
+def gen_coord_k(rng, small=False, sc=None):
+    C = gen_coord(rng, sc=sc, small=small)
+    r = rng.random()
+    if r < 0.2:        # the all-defaults configuration, arguments left out
+        C.update(side="1", xo="0", yo="0", fl=False)
+    elif r < 0.35: C.update(xo="0", yo="0")
+    elif r < 0.45: C.update(side="1")
+    C["dflt"] = rng.random() < 0.6
+    C["ck"] = rng.choice(CKINDS); C["sk"] = rng.choice(["float", "float", "int", "np"]); C["posargs"] = rng.random() < 0.15
+    return C
 
 def gen_inputs(tier, rng):
     big = tier == "thorough"
     n = 300 if big else 24
+    KCYCLE = ["f64", "int", "f32", "view", "f64", "fortran", "ro", "irr", "int"]       # every storage kind in every run
+    SCYCLE = ["arr", "list", "neg", "bool", "i32", "ro", "arr"]
     for i in range(n):
-        A = gen_array(rng)
+        A = gen_array_k(rng, vk=KCYCLE[i % len(KCYCLE)])
         for op in ("a_tris", "a_up", "a_nbr"):
             yield dict(A, op=op)
         nt = len(A["idx"])
-        yield dict(A, op="a_for", sel=[rng.randrange(nt) for _ in range(rng.randint(0, nt + 1))])
+        yield dict(A, op="a_for", sel=[rng.randrange(nt) for _ in range(rng.randint(0 if i % 7 == 0 else 1, nt + 1))],
+                   selk=SCYCLE[i % len(SCYCLE)], seed=rng.randrange(10 ** 9))
         sc, off = F(A["sc"]), [F(A["off"][0]), F(A["off"][1])]
         yield dict(A, op="a_with", verts2=[place(rand_pt(rng), sc, off) for _ in A["verts"]])
         for _ in range(2): yield dict(A, op="a_contain", shape=gen_shape(rng))
+        yield dict(A, op="a_contain", shape=gen_shape(rng, want=True))
+    # directed: rare states of the containment tests on meshes (neighbouring triangles), every non-point kind
+    DIRECTED = [("circle", "mixed"), ("square", "mixed"), ("triangle", "mixed"), ("polygon", "mixed"), ("circle", "mixed"),
+                ("square", "ref_only"), ("triangle", "own_only"), ("polygon", "ref_only"), ("circle", "own_only"),
+                ("square", "mixed"), ("circle", "mixed"), ("square", "own_only"), ("square", "unsorted")]
+    for i in range(78 if big else 13):
+        A = gen_array_k(rng)
+        while len(A["idx"]) < 3: A = gen_array_k(rng)
+        kind, want = DIRECTED[i % len(DIRECTED)]
+        yield dict(A, op="a_contain", shape=dict(gen_shape(rng, want=want), kind=kind))
     for i in range(n):
-        C = gen_coord(rng)
+        C = gen_coord_k(rng)
         for op in ("c_tris", "c_up", "c_nbr", "c_repr"):
             yield dict(C, op=op)
-        yield dict(C, op="c_for", selseed=rng.randrange(10 ** 9))
+        yield dict(C, op="c_for", selseed=rng.randrange(10 ** 9), selk=SCYCLE[(i + 3) % len(SCYCLE)])
         for _ in range(2): yield dict(C, op="c_contain", shape=gen_shape(rng))
+        yield dict(C, op="c_contain", shape=gen_shape(rng, want=True))
+    # directed: every (lattice parity, flipped) state of a single cell and of an edge-sharing pair, through every operation
+    # whose code branches on it (flag-dependent row / column offsets), also on the result of up_sample() (always flipped)
+    k = 0
+    for fl in (False, True):
+        for par in (0, 1):
+            x = rng.randint(-4, 4); y = rng.randint(-4, 4)
+            if (x + y) % 2 != par: y += 1
+            sc = pick_scale(rng)
+            for coords in ([[x, y]], [[x, y], [x + 1, y]], [[x, y], [x, y + 1], [x, y - 1]]):
+                for pre in ([], ["up"]):
+                    if pre and len(coords) > 1: continue
+                    base = {"coords": coords, "side": S(rng.choice(SIDES) * sc), "xo": S(sc * rng.randint(-3, 3)),
+                            "yo": S(sc * Fraction(rng.randint(-6, 6), 2)), "fl": fl, "pre": pre, "ck": CKINDS[k % len(CKINDS)],
+                            "dflt": True}
+                    k += 1
+                    for op in ("c_nbr", "c_up", "c_tris"): yield dict(base, op=op)
+                    if len(coords) == 2:
+                        yield dict(base, op="c_contain", shape=gen_shape(rng, want="mixed"))
     for i in range(n // 2):
         sc = pick_scale(rng)
         off = pick_offset(rng, sc)
@@ -256,14 +353,20 @@ def gen_inputs(tier, rng):
         side = rng.choice(SIDES[1:]) * sc
         L = {"lims": [S(lo[0]), S(lo[0] + ext[0]), S(lo[1]), S(lo[1] + ext[1])], "scale": S(side)}
         yield dict(L, op="a_limits")
-        yield dict(L, op="c_limits")
+        Lc = dict(L, scale="1") if sc <= 1 and rng.random() < 0.5 else L          # scale has a default (1.0) in this constructor
+        yield dict(Lc, op="c_limits", dflt=rng.random() < 0.6)
         yield dict(L, op=rng.choice(["al_up", "al_nbr", "al_for", "al_contain"]), seed=rng.randrange(10 ** 9), shape=gen_shape(rng))
+    # for_grid: the limits of a uniform grid (any shape, pixel scale, origin) handed to for_limits_and_scale
+    for i in range(30 if big else 5):
+        ps = Fraction(rng.choice([1, 1, 2, 3])) * Fraction(2) ** rng.randint(-4, 3)
+        yield {"op": "a_grid", "shape": [rng.randint(2, 4), rng.randint(1, 4)], "ps": S(ps),
+               "origin": [S(ps * Fraction(rng.randint(-8, 8), 2)), S(ps * Fraction(rng.randint(-8, 8), 2))]}
     # sessions: one object, several calls (repeats, re-used shapes, in-place edits, the object replaced by its own results)
     for i in range(200 if big else 26):
-        A = gen_array(rng)
+        A = gen_array_k(rng, session=True)
         yield dict(A, op="a_session", steps=gen_steps(rng, A_STEPS, rng.randint(5, 9)))
     for i in range(200 if big else 26):
-        C = gen_coord(rng, small=rng.random() < 0.5)
+        C = gen_coord_k(rng, small=rng.random() < 0.5)
         C["pre"] = []
         yield dict(C, op="c_session", steps=gen_steps(rng, C_STEPS, rng.randint(5, 9)))
     # chains of consecutive up_sample() calls following one child (depth 10-16): sides down to 2^-16 of the start
@@ -273,19 +376,19 @@ def gen_inputs(tier, rng):
         A = gen_array(rng, sc=sc)
         A["idx"] = A["idx"][:2]
         yield dict(A, op="a_chain", picks=[rng.randrange(10 ** 6) for _ in range(depth)], shape=gen_shape(rng),
-                   shape2=gen_shape(rng))
+                   shape2=gen_shape(rng, want=True))
         C = gen_coord(rng, sc=sc, small=True)
         C["pre"] = []
         yield dict(C, op="c_chain", picks=[rng.randrange(10 ** 6) for _ in range(depth)], shape=gen_shape(rng),
-                   shape2=gen_shape(rng))
+                   shape2=gen_shape(rng, want=True))
     for i in range(30 if big else 8):
-        yield {"op": "shape_init", "nv": i % 5, "seed": rng.randrange(10 ** 9), "sc": S(pick_scale(rng))}
+        yield {"op": "shape_init", "nv": i % 5, "seed": rng.randrange(10 ** 9), "sc": S(pick_scale(rng)), "pk": PKINDS[i % len(PKINDS)]}
     # malformed stream: an index row that addresses no vertex (numpy raises IndexError)
     for i in range(40 if big else 10):
         A = gen_array(rng)
         if i % 3:
             r = rng.randrange(len(A["idx"])); A["idx"][r][rng.randrange(3)] = len(A["verts"]) + rng.randint(0, 2)
-        yield dict(A, op="a_checked")
+        yield dict(A, op="a_checked", ik=IKINDS[i % len(IKINDS)])
 
 # ----------------------------------------------------------------------------- Coq printing
 def dy_parts(x):
@@ -332,14 +435,43 @@ def cshape(sh):
     if k == "square": return f"(QSquare {cqd(sh[1])} {cqd(sh[2])} {cqd(sh[3])} {cqd(sh[4])})"
     raise ValueError(k)
 
-def py_shape(sh):
+PKINDS = ["float", "float", "np", "int", "arr", "lst", "sub", "pos", "tree"]
+_subclasses = {}
+def _sub(cls):
+    """a user-defined SUBCLASS of a Shape class (nothing overridden): must be treated like the class itself"""
+    if cls not in _subclasses: _subclasses[cls] = type("My" + cls.__name__, (cls,), {})
+    return _subclasses[cls]
+def py_shape(sh, pk="float"):
+    """the Shape object; pk = KIND of the arguments: Python floats, numpy float64 scalars, Python ints where the value is an
+    integer, numpy arrays / lists instead of tuples for corners, positional instead of keyword arguments, a subclass"""
     from autoarray.structures.triangles import shape as SH
-    k = sh[0]; fl = float
-    if k == "point": return SH.Point(fl(sh[1][0]), fl(sh[1][1]))
-    if k == "circle": return SH.Circle(fl(sh[1][0]), fl(sh[1][1]), radius=fl(sh[2]))
-    if k == "triangle": return SH.Triangle(*[(fl(p[0]), fl(p[1])) for p in sh[1:4]])
-    if k == "polygon": return SH.Polygon([(fl(p[0]), fl(p[1])) for p in sh[1]])
-    if k == "square": return SH.Square(top=fl(sh[1]), bottom=fl(sh[2]), left=fl(sh[3]), right=fl(sh[4]))
+    k = sh[0]
+    def fl(x):
+        x = Fraction(x)
+        if pk == "np": return np.float64(float(x))
+        if pk == "int" and x.denominator == 1 and abs(x) < 2 ** 50: return int(x)
+        return float(x)
+    def corner(p):
+        if pk == "arr": return np.array([float(p[0]), float(p[1])])
+        if pk == "lst": return [float(p[0]), float(p[1])]
+        return (fl(p[0]), fl(p[1]))
+    cls = {"point": SH.Point, "circle": SH.Circle, "triangle": SH.Triangle, "polygon": SH.Polygon, "square": SH.Square}[k]
+    if pk == "sub": cls = _sub(cls)
+    if pk == "tree" and "tree_unflatten" in vars(cls):      # (Square only inherits Point's, which cannot rebuild a Square)
+        # sibling constructor: the pytree round trip tree_unflatten(tree_flatten()) rebuilds the shape
+        children, aux = py_shape(sh, "float").tree_flatten()
+        return cls.tree_unflatten(aux, children)
+    if k == "point": return cls(fl(sh[1][0]), fl(sh[1][1])) if pk == "pos" else cls(x=fl(sh[1][0]), y=fl(sh[1][1]))
+    if k == "circle":
+        if pk == "pos": return cls(fl(sh[1][0]), fl(sh[1][1]), fl(sh[2]))
+        return cls(x=fl(sh[1][0]), y=fl(sh[1][1]), radius=fl(sh[2]))
+    if k == "triangle": return cls(*[corner(p) for p in sh[1:4]])
+    if k == "polygon":
+        if pk == "arr": return cls(np.array([[float(p[0]), float(p[1])] for p in sh[1]]).reshape(-1, 2))
+        return cls([corner(p) for p in sh[1]])
+    if k == "square":
+        if pk == "pos": return cls(fl(sh[1]), fl(sh[2]), fl(sh[3]), fl(sh[4]))
+        return cls(right=fl(sh[4]), top=fl(sh[1]), left=fl(sh[3]), bottom=fl(sh[2]))
     raise ValueError(k)
 
 def shape_state(sh, P):
@@ -494,6 +626,9 @@ NUDGES = [(0, 0), (Fraction(1, 16), Fraction(1, 32)), (Fraction(-3, 64), Fractio
           (Fraction(11, 64), Fraction(13, 128))]
 def shape_for(desc, tris, inexact_tris):
     """the requested shape, nudged off the rounding band if necessary; None if every attempt is inside the band"""
+    if desc.get("want") and desc["kind"] != "point":
+        sh = directed_shape(desc, tris, inexact_tris)
+        if sh is not None: return sh
     for nd in NUDGES:
         sh = build_shape(desc, tris, nd)
         try:
@@ -502,6 +637,131 @@ def shape_for(desc, tris, inexact_tris):
         except Band:
             continue
     return None
+
+# ---- exact evaluation of the two tests every non-point shape combines (used only to STEER the generator towards rare states;
+# the verdict is computed by the Coq model)
+def _bary_in(p, a, b, c):
+    den = (b[1] - c[1]) * (a[0] - c[0]) + (c[0] - b[0]) * (a[1] - c[1])
+    if den == 0: return False
+    u = ((b[1] - c[1]) * (p[0] - c[0]) + (c[0] - b[0]) * (p[1] - c[1])) / den
+    v = ((c[1] - a[1]) * (p[0] - c[0]) + (a[0] - c[0]) * (p[1] - c[1])) / den
+    w = 1 - u - v
+    return 0 <= u <= 1 and 0 <= v <= 1 and 0 <= w <= 1
+def two_tests(sh, tris):
+    """per triangle: (accepted by the shape's own test on the triangle's centroid, accepted by the inherited test of the
+    shape's reference point)"""
+    k = sh[0]; r = ref_of(sh); out = []
+    sw = lambda q: [q[1], q[0]]
+    for t in tris:
+        cen = [mean_fr([v[0] for v in t]), mean_fr([v[1] for v in t])]
+        ref = _bary_in(r, t[0], t[1], t[2])
+        if k == "circle": own = (cen[0] - r[0]) ** 2 + (cen[1] - r[1]) ** 2 <= sh[2] ** 2
+        elif k == "square": own = sh[3] <= cen[0] <= sh[4] and sh[2] >= cen[1] >= sh[1]
+        elif k == "triangle": own = _bary_in(cen, sw(sh[1]), sw(sh[2]), sw(sh[3]))
+        elif k == "polygon":
+            vs = sh[1]
+            own = any(_bary_in(cen, sw(vs[0]), sw(b), sw(c)) or
+                      _bary_in([mean_fr([vs[0][0], b[0], c[0]]), mean_fr([vs[0][1], b[1], c[1]])], t[0], t[1], t[2])
+                      for b, c in zip(vs[1:], vs[2:]))
+        else: own = False
+        out.append((own, ref))
+    return out
+
+DSIZES = [Fraction(1, 16), Fraction(1, 8), Fraction(1, 8), Fraction(1, 4), Fraction(1, 2), Fraction(1), Fraction(2), Fraction(2), Fraction(3)]
+def snap_shape(sh):
+    """every parameter snapped to a double, so that the shape the code sees is the shape the model sees"""
+    sn = lambda x: frac(float(x))
+    snp = lambda q: [sn(q[0]), sn(q[1])]
+    k = sh[0]
+    if k == "point": return ("point", snp(sh[1]))
+    if k == "circle": return ("circle", snp(sh[1]), sn(sh[2]))
+    if k == "square": return ("square",) + tuple(sn(x) for x in sh[1:])
+    if k == "triangle": return ("triangle",) + tuple(snp(q) for q in sh[1:])
+    return ("polygon", [snp(q) for q in sh[1]])
+
+def directed_shape(desc, tris, inexact_tris):
+    """RARE STATES constructed deliberately.  A non-point shape accepts a triangle by its own test on the triangle's centroid
+    OR by the inherited test of its reference point.  Random shapes almost always make the two tests agree on which triangles
+    they accept.  desc['want']:
+      'mixed'    -- some triangle is accepted ONLY by the centroid test and another ONLY by the reference-point test (needs
+                    e.g. an elongated box / a small circle whose centre is in a triangle away from that triangle's centroid);
+      'ref_only' -- no centroid is accepted, the reference point is inside a triangle;
+      'own_only' -- centroids are accepted, the reference point is in no triangle;
+      'unsorted' -- a box given with top > bottom or left > right / a circle with a negative radius that accepts no centroid
+                    as it stands (the code compares with the bounds as given / squares the radius) although the box with
+                    sorted bounds would.
+    Candidates are drawn (reference point by barycentric coordinates biased towards the corners and edges of a triangle of
+    the set; half-width and half-height / radius / corner offsets independently from 1/16 to 3 scales, boxes also with
+    top > bottom or left > right, radii also negative) until one is in the wanted state and off the rounding band."""
+    rng = random.Random(desc["seed"] * 31 + 7); sc = scale_of(tris); k = desc["kind"]; want = desc["want"]
+    fallback = None
+    for attempt in range(60):
+        t = tris[rng.randrange(len(tris))]
+        den = rng.choice([8, 8, 12, 16])
+        if want == "own_only" and rng.random() < 0.7:
+            a = rng.randint(-den // 2, den + den // 2); b = rng.randint(-den // 2, den + den // 2)
+        else:
+            a = rng.randint(1, den - 2); b = rng.randint(1, den - 1 - a)
+            if rng.random() < 0.5: a, b = rng.choice([(1, 1), (den - 2, 1), (1, den - 2), (1, den // 2), (den // 2, 1)])
+        ca, cb = Fraction(a, den), Fraction(b, den); cc = 1 - ca - cb
+        p = [ca * t[0][0] + cb * t[1][0] + cc * t[2][0], ca * t[0][1] + cb * t[1][1] + cc * t[2][1]]
+        # half of the candidates are sized to just reach the centroid of ANOTHER triangle of the set
+        t2 = tris[rng.randrange(len(tris))]
+        aim = [mean_fr([v[0] for v in t2]), mean_fr([v[1] for v in t2])] if rng.random() < 0.5 and t2 is not t else None
+        norm = None
+        if k == "circle":
+            rad = sc * rng.choice(DSIZES)
+            if aim is not None:
+                rad = frac(float((aim[0] - p[0]) ** 2 + (aim[1] - p[1]) ** 2) ** 0.5) * Fraction(rng.choice([9, 10, 12]), 8)
+            sh = ("circle", p, rad * (-1 if rng.random() < 0.08 or want == "unsorted" else 1))
+            norm = ("circle", p, abs(rad))
+        elif k == "square":
+            hw, hh = sc * rng.choice(DSIZES), sc * rng.choice(DSIZES)
+            if aim is not None:
+                hw = abs(aim[0] - p[0]) * Fraction(9, 8) + sc * rng.choice([0, Fraction(1, 32), Fraction(1, 8)])
+                hh = abs(aim[1] - p[1]) * Fraction(9, 8) + sc * rng.choice([0, Fraction(1, 32), Fraction(1, 8)])
+            top, bottom, lft, rgt = p[1] - hh, p[1] + hh, p[0] - hw, p[0] + hw
+            u = rng.random()
+            norm = ("square", top, bottom, lft, rgt)
+            if want == "unsorted": u = u / 10
+            if u < 0.05: top, bottom = bottom, top
+            elif u < 0.10: lft, rgt = rgt, lft
+            sh = ("square", top, bottom, lft, rgt)
+        else:
+            dx, dy = sc * rng.choice(DSIZES), sc * rng.choice(DSIZES)
+            n = 2 if k == "triangle" else rng.randint(2, 4)
+            d = [[dx * Fraction(rng.randint(-8, 8), 8), dy * Fraction(rng.randint(-8, 8), 8)] for _ in range(n)]
+            d.append([-sum(q[0] for q in d), -sum(q[1] for q in d)])          # offsets sum to zero: the mean is p
+            pts = [[p[0] + q[0], p[1] + q[1]] for q in d]
+            if k == "triangle" and aim is not None:
+                # (the code tests the centroid against the TRANSPOSED corners) a thin triangle whose transposed image holds the
+                # other centroid while its mean stays at p
+                sa = [aim[1], aim[0]]; m = [p[0] - sa[0], p[1] - sa[1]]; w = [-m[1] / 2, m[0] / 2]
+                if m != [0, 0]:
+                    e = [[-(m[0] + w[0]) / 4, -(m[1] + w[1]) / 4], [-(m[0] - w[0]) / 4, -(m[1] - w[1]) / 4],
+                         [m[0] * Fraction(7, 2), m[1] * Fraction(7, 2)]]
+                    rng.shuffle(e)
+                    pts = [[sa[0] + q[0], sa[1] + q[1]] for q in e]
+            sh = ("triangle",) + tuple(pts) if k == "triangle" else ("polygon", pts)
+        sh = snap_shape(sh)
+        if norm is not None: norm = snap_shape(norm)
+        tt = two_tests(sh, tris)
+        own_only = any(o and not r for o, r in tt); ref_only = any(r and not o for o, r in tt)
+        hit = {"mixed": own_only and ref_only, "ref_only": ref_only and not any(o for o, _ in tt),
+               "own_only": own_only and not any(r for _, r in tt)}.get(want, False)
+        if want == "unsorted":
+            # the parameters as given accept no centroid, their sorted / absolute values would accept one
+            hit = norm is not None and not any(o for o, _ in tt) and any(o and not r for o, r in two_tests(norm, tris))
+        if not hit and (fallback is not None or attempt < 45): continue
+        try: check_band(sh, tris, inexact_tris)
+        except Band: continue
+        if hit:
+            _directed["hit:" + want] = _directed.get("hit:" + want, 0) + 1
+            return sh
+        fallback = sh
+    _directed["miss:" + want] = _directed.get("miss:" + want, 0) + 1
+    return fallback
+_directed = {}
 
 def build_shape(desc, tris, nudge=(0, 0)):
     """concrete shape whose reference point has the requested barycentric position in one of `tris`; its size is in units
@@ -512,15 +772,7 @@ def build_shape(desc, tris, nudge=(0, 0)):
     ca, cb = F(desc["bc"][0]) + nudge[0], F(desc["bc"][1]) + nudge[1]; cc = 1 - ca - cb
     p = [ca * t[0][0] + cb * t[1][0] + cc * t[2][0], ca * t[0][1] + cb * t[1][1] + cc * t[2][1]]
     sh = _build_shape(desc, p, rng, sc)
-    # snap every parameter to a double so that the shape the code sees is the shape the model sees
-    sn = lambda x: frac(float(x))
-    snp = lambda q: [sn(q[0]), sn(q[1])]
-    k = sh[0]
-    if k == "point": return ("point", snp(sh[1]))
-    if k == "circle": return ("circle", snp(sh[1]), sn(sh[2]))
-    if k == "square": return ("square",) + tuple(sn(x) for x in sh[1:])
-    if k == "triangle": return ("triangle",) + tuple(snp(q) for q in sh[1:])
-    return ("polygon", [snp(q) for q in sh[1]])
+    return snap_shape(sh)
 
 def _build_shape(desc, p, rng, sc):
     size, asp = F(desc["size"]) * sc, F(desc["aspect"])
@@ -540,24 +792,27 @@ def _build_shape(desc, p, rng, sc):
     return ("polygon", [[p[0] + q[0], p[1] + q[1]] for q in d])
 
 # ----------------------------------------------------------------------------- is the double arithmetic exact on this set?
-def exact_set(tris):
-    """every midpoint, reflection and area term of these triangles is computed without rounding by the implementation"""
+def exact_set(tris, bits=53):
+    """every midpoint, reflection and area term of these triangles is computed without rounding by the implementation
+    (in doubles, or in float32 when the vertex array is float32: bits=24)"""
+    _rep = rep
+    rep_ = lambda x: _rep(x, bits)
     terms = []
     for t in tris:
         for j in range(2):
             a, b, c = t[0][j], t[1][j], t[2][j]
             for s in (a + b, b + c, c + a, (a + b) / 2, (b + c) / 2, (c + a) / 2, b + c - a, a + c - b, a + b - c):
-                if not rep(s): return False
+                if not rep_(s): return False
         (x0, y0), (x1, y1), (x2, y2) = t
         ps = [x0 * (y1 - y2), x1 * (y2 - y0), x2 * (y0 - y1)]
         for s in (y1 - y2, y2 - y0, y0 - y1, ps[0], ps[1], ps[2], ps[0] + ps[1], ps[0] + ps[1] + ps[2]):
-            if not rep(s): return False
+            if not rep_(s): return False
         terms.append(abs(ps[0] + ps[1] + ps[2]))
     nz = [x for x in terms if x != 0]
     if nz:
         # np.sum adds in an unspecified (pairwise) order: exact if all terms are multiples of one unit and the total is short
         unit = min(Fraction(1, x.denominator) * (x.numerator & -x.numerator) for x in nz)
-        if sum(nz) / unit >= 2 ** 52: return False
+        if sum(nz) / unit >= 2 ** (bits - 1): return False
     return True
 
 def tl_of_tris(tris, extra=()):
@@ -568,20 +823,92 @@ def hq():
     from autoarray.structures.triangles.abstract import HEIGHT_FACTOR
     return frac(HEIGHT_FACTOR)
 
-def mk_array(inp):
+VKINDS = ["f64", "f64", "f64", "int", "f32", "view", "fortran", "ro", "irr"]
+IKINDS = ["i64", "i64", "i32", "u8", "view", "ro"]
+def mk_array(inp, allow32=True):
+    """the ArrayTriangles object of the case.  INPUT KINDS: inp['vk'] = storage of the vertex array (float64, int64 when every
+    coordinate is an integer, float32 when every operation on the set is exact in 24 bits, a non-contiguous view of a larger
+    array, Fortran order, read-only, an aa.Grid2DIrregular), inp['ik'] = storage of the index array (int64 / int32 / uint8 /
+    view / read-only).  The value of every entry is the same in all kinds."""
     from autoarray.structures.triangles.array import ArrayTriangles
     verts = [[F(v[0]), F(v[1])] for v in inp["verts"]]
-    A = ArrayTriangles(indices=np.array(inp["idx"], dtype=int).reshape(-1, 3),
-                       vertices=np.array([[float(v[0]), float(v[1])] for v in verts]).reshape(-1, 2))
-    return A, [list(r) for r in inp["idx"]], verts
+    idx = [list(r) for r in inp["idx"]]
+    vk, ik = inp.get("vk", "f64"), inp.get("ik", "i64")
+    fl = [[float(v[0]), float(v[1])] for v in verts]
+    inrange = all(0 <= i < len(verts) for r in idx for i in r)
+    if vk == "int" and all(x.denominator == 1 and abs(x) < 2 ** 40 for v in verts for x in v):
+        V = np.array([[int(v[0]), int(v[1])] for v in verts], dtype=np.int64).reshape(-1, 2)
+    elif (vk == "f32" and allow32 and inrange and all(rep(x, 24) for v in verts for x in v)
+          and exact_set(tris_of(idx, verts), 24)):
+        V = np.array(fl, dtype=np.float32).reshape(-1, 2)
+    else:
+        V = np.array(fl, dtype=float).reshape(-1, 2)
+        if vk == "view":
+            big = np.full((2 * len(fl) + 1, 5), 7.25); big[1::2, 1:4:2] = V; V = big[1::2, 1:4:2]
+        elif vk == "fortran": V = np.asfortranarray(V)
+        elif vk == "ro": V.setflags(write=False)
+        elif vk == "irr":
+            import autoarray as aa
+            V = aa.Grid2DIrregular(values=fl) if fl else V
+    I = np.array(idx, dtype=int).reshape(-1, 3)
+    if ik == "i32": I = I.astype(np.int32)
+    elif ik == "u8" and len(verts) < 250 and inrange: I = I.astype(np.uint8)
+    elif ik == "view":
+        big = np.full((len(idx), 7), -1, dtype=int); big[:, 0:6:2] = I; I = big[:, 0:6:2]
+    elif ik == "ro": I.setflags(write=False)
+    A = ArrayTriangles(indices=I, vertices=V)
+    return A, idx, verts
 
+CKINDS = ["i64", "i64", "i32", "i8", "f64", "view", "ro"]
+class _Sub: pass
 def mk_coord(inp):
+    """INPUT KINDS: inp['ck'] = storage of the coordinate array; inp['dflt'] = leave out every constructor argument that has
+    its default value (side_length=1.0, x_offset=0.0, y_offset=0.0, flipped=False) so that the DEFAULTS are exercised;
+    inp['sk'] = Python int / numpy scalar for side and offsets where the value allows it"""
     from autoarray.structures.triangles.coordinate_array import CoordinateArrayTriangles
-    C = CoordinateArrayTriangles(coordinates=np.array(inp["coords"], dtype=int).reshape(-1, 2), side_length=float(F(inp["side"])),
-                                 x_offset=float(F(inp["xo"])), y_offset=float(F(inp["yo"])), flipped=inp["fl"])
+    ck = inp.get("ck", "i64")
+    co = np.array(inp["coords"], dtype=int).reshape(-1, 2)
+    if ck == "i32": co = co.astype(np.int32)
+    elif ck == "i8": co = co.astype(np.int8)
+    elif ck == "f64": co = co.astype(float)
+    elif ck == "view":
+        big = np.full((2 * len(co) + 1, 4), 9, dtype=int); big[::2][:len(co), 1:3] = co; co = big[::2][:len(co), 1:3]
+    elif ck == "ro": co.setflags(write=False)
+    sk = inp.get("sk", "float")
+    def num(x):
+        x = F(x)
+        if sk == "int" and x.denominator == 1 and abs(x) < 2 ** 50: return int(x)
+        if sk == "np": return np.float64(float(x))
+        return float(x)
+    kw = {"side_length": num(inp["side"]), "x_offset": num(inp["xo"]), "y_offset": num(inp["yo"]), "flipped": bool(inp["fl"])}
+    if inp.get("dflt"):
+        for k, d in (("side_length", 1), ("x_offset", 0), ("y_offset", 0), ("flipped", False)):
+            if kw[k] == d: del kw[k]
+    if inp.get("posargs") and len(kw) == 4:
+        C = CoordinateArrayTriangles(co, kw["side_length"], kw["x_offset"], kw["y_offset"], kw["flipped"])
+    else:
+        C = CoordinateArrayTriangles(coordinates=co, **kw)
     for step in inp.get("pre", []):
         C = C.up_sample() if step == "up" else C.neighborhood()
     return C
+
+SELKINDS = ["arr", "arr", "list", "i32", "neg", "bool", "ro"]
+def mk_sel(sel, n, selk, seed=0):
+    """the selection handed to for_indexes, in one of several KINDS; returns (argument, the non-negative positions it denotes)"""
+    sel = [int(i) for i in sel]
+    if not sel or selk == "arr": return np.array(sel, dtype=int), sel
+    if selk == "list": return list(sel), sel
+    if selk == "i32": return np.array(sel, dtype=np.int32), sel
+    if selk == "ro":
+        a = np.array(sel, dtype=int); a.setflags(write=False); return a, sel
+    if selk == "neg":      # numpy wrap-around: position i - n denotes triangle i
+        r = random.Random(seed)
+        return np.array([i - n if r.random() < 0.6 else i for i in sel], dtype=int), sel
+    if selk == "bool":     # a mask selects the marked triangles in increasing order
+        sel = sorted(set(sel)); m = np.zeros(n, dtype=bool); m[sel] = True
+        return m, sel
+    raise ValueError(selk)
+def sel_fingerprint(a): return (type(a).__name__, np.asarray(a).dtype.str, np.asarray(a).tolist())
 
 def skip(kind):
     _skipped["in_band"] += 1
@@ -589,19 +916,30 @@ def skip(kind):
             "kind": kind + ":in-band"}
 
 def tris_of(idx, verts): return [[verts[i] for i in r] for r in idx]
+def means_ok(M, tris, tol):
+    """.means = the average of the three corners of every triangle (up to the rounding of the case)"""
+    M = np.asarray(M)
+    if len(tris) == 0: return M.size == 0
+    if M.shape != (len(tris), 2): return False
+    tol = tol + mag_of(tris) / 2 ** 20 if M.dtype == np.float32 else tol
+    return all(abs(frac(M[i][j]) - mean_fr([v[j] for v in t])) <= tol for i, t in enumerate(tris) for j in range(2))
 
-def array_op(A, idx, verts, op, arg=None):
+def array_op(A, idx, verts, op, arg=None, selk="arr", selseed=0):
     """one call on the ArrayTriangles object A whose exact current contents are (idx, verts).
     returns (coq cases, py_ok, out, result object or None); raises Band for a containment decision inside the band"""
     from autoarray.structures.triangles.array import ArrayTriangles
     cA = catri(idx, verts)
     tris = tris_of(idx, verts)
-    ex = exact_set(tris)
+    bits = 24 if np.asarray(A.vertices).dtype == np.float32 else 53
+    ex = exact_set(tris, bits)
     tl = NOTL if ex else tl_of_tris(tris)
     exb = cbool(ex); tls = ctl(tl)
     if op == "tris":
-        out = fr_tris(A.triangles)
+        T = A.triangles
+        out = fr_tris(T)
         ok = len(A) == len(idx)
+        # siblings of .triangles: iteration yields the rows of .triangles, .means their corner averages
+        ok = ok and [fr_pts(t) for t in A] == out and means_ok(A.means, out, tl_of_tris(tris)[0])
         return [f"(KATris {cA} {ctris(out)})"], ok, {"triangles": str(out)[:400]}, None
     if op == "area":
         area = frac(A.area)
@@ -616,12 +954,12 @@ def array_op(A, idx, verts, op, arg=None):
         oi, ov = atri_of(N)
         return [f"(KANbr {tls} {exb} {cA} {catri(oi, ov)})"], isinstance(N, ArrayTriangles), {"indices": oi, "vertices": str(ov)[:300]}, N
     if op == "for":
-        sel = list(arg)
-        sel_arr = np.array(sel, dtype=int)
-        R = A.for_indexes(sel_arr)
+        sel_arg, sel = mk_sel(arg, len(idx), selk, selseed)
+        fp = sel_fingerprint(sel_arg)
+        R = A.for_indexes(sel_arg)
         oi, ov = atri_of(R)
         ok = bool(np.array_equal(R.triangles, A.triangles[np.array(sel, dtype=int)])) if sel else len(R) == 0
-        ok = ok and sel_arr.tolist() == sel                 # the selection handed in is not modified
+        ok = ok and sel_fingerprint(sel_arg) == fp          # the selection handed in is not modified
         return [f"(KAFor {tls} {exb} {cA} {cnats(sel)} {catri(oi, ov)})"], ok, {"indices": oi, "vertices": str(ov)[:300]}, R
     if op == "with":
         v2 = [[F(v[0]), F(v[1])] for v in arg]
@@ -648,11 +986,11 @@ def array_ops(A, idx, verts, op, inp, base):
         tris = tris_of(idx, verts)
         sh = shape_for(inp["shape"], tris, False)
         if sh is None: return skip(base["kind"])
-        cases, ok, out = contain_op(A, tris, sh, py_shape(sh), lambda o: f"(KAContain {catri(idx, verts)} {cshape(sh)} {cnats(o)})")
+        cases, ok, out = contain_op(A, tris, sh, py_shape(sh, inp["shape"].get("pk", "float")), lambda o: f"(KAContain {catri(idx, verts)} {cshape(sh)} {cnats(o)})")
         extra = {"shape": str(sh)[:300]}
     else:
         arg = inp.get("sel") if op == "for" else inp.get("verts2") if op == "with" else None
-        cases, ok, out, _ = array_op(A, idx, verts, op, arg)
+        cases, ok, out, _ = array_op(A, idx, verts, op, arg, inp.get("selk", "arr"), inp.get("seed", 0) or 0)
         if op == "tris":
             c2, ok2, out2, _ = array_op(A, idx, verts, "area")
             cases += c2; ok = ok and ok2; out = dict(out, **out2)
@@ -662,7 +1000,7 @@ def array_ops(A, idx, verts, op, inp, base):
     return dict(base, coq=cases[0], extra_coq=cases[1:], out=out, py_ok=ok, **extra)
 
 # ---- CoordinateArrayTriangles
-def coord_op(C, S0, it, op, arg=None):
+def coord_op(C, S0, it, op, arg=None, selk="arr", selseed=0):
     """one call on the CoordinateArrayTriangles object C with exact description S0 and triangles `it` (as first read)"""
     from autoarray.structures.triangles.array import ArrayTriangles
     from autoarray.structures.triangles.coordinate_array import CoordinateArrayTriangles
@@ -672,6 +1010,7 @@ def coord_op(C, S0, it, op, arg=None):
     if op == "tris":
         t2 = fr_tris(C.triangles)
         ok = len(C) == len(S0["coords"]) and t2 == it
+        ok = ok and [fr_pts(t) for t in C] == it and means_ok(C.means, it, tl[0])
         return [f"(KCTris {pre} {ctris(t2)})"], ok, {"triangles": str(t2)[:400]}, None
     if op == "area":
         area = frac(C.area)
@@ -680,11 +1019,11 @@ def coord_op(C, S0, it, op, arg=None):
         if op == "up": R = C.up_sample(); k = "KCUp"; mid = ""
         elif op == "nbr": R = C.neighborhood(); k = "KCNbr"; mid = ""
         else:
-            sel = list(arg)
-            sel_arr = np.array(sel, dtype=int)
-            R = C.for_indexes(sel_arr); k = "KCFor"; mid = cnats(sel) + " "
+            sel_arg, sel = mk_sel(arg, len(S0["coords"]), selk, selseed)
+            fp = sel_fingerprint(sel_arg)
+            R = C.for_indexes(sel_arg); k = "KCFor"; mid = cnats(sel) + " "
         ok = isinstance(R, CoordinateArrayTriangles)
-        if op == "for": ok = ok and sel_arr.tolist() == sel
+        if op == "for": ok = ok and sel_fingerprint(sel_arg) == fp
         if op == "up":
             ca = float(C.area)
             ok = ok and len(R) == 4 * len(C) and abs(float(R.area) - ca) <= 1e-9 * ca
@@ -738,7 +1077,7 @@ def pool_shape(pool, st, tris, inexact):
     if slot not in pool:
         sh = shape_for(st["shape"], tris, inexact)
         if sh is None: return None
-        pool[slot] = (sh, py_shape(sh))
+        pool[slot] = (sh, py_shape(sh, st["shape"].get("pk", "float")))
         return pool[slot]
     sh, P = pool[slot]
     try: check_band(sh, tris, inexact)
@@ -748,15 +1087,18 @@ def pool_shape(pool, st, tris, inexact):
 def a_steps(se, A, idx, verts, steps, pool, sc_hint):
     """steps on an ArrayTriangles object: (idx, verts) is the exact description of its CURRENT arrays"""
     base_idx, base_verts, edits = [list(r) for r in idx], [list(v) for v in verts], []
+    rbase_idx, rbase_verts, rw = [list(r) for r in idx], [list(v) for v in verts], []       # history of index-row writes
     for n, st in enumerate(steps):
         k = st["k"]; r = random.Random(st["seed"]); name = f"{n}:{k}"
         nt = len(idx)
         if k in ("move_up", "move_nbr") and nt > 6: k = "up" if k == "move_up" else "nbr"
+        if k == "edit" and not (isinstance(A.vertices, np.ndarray) and A.vertices.flags.writeable and A.vertices.dtype == np.float64):
+            k = "tris"          # read-only / non-float storage: the user cannot write p into it
         if k in ("tris", "area", "up", "nbr", "move_up", "move_nbr"):
             cases, ok, out, R = array_op(A, idx, verts, k.replace("move_", ""))
         elif k in ("for", "move_for"):
             sel = [r.randrange(nt) for _ in range(r.randint(1, nt + 1))]
-            cases, ok, out, R = array_op(A, idx, verts, "for", sel)
+            cases, ok, out, R = array_op(A, idx, verts, "for", sel, r.choice(SELKINDS), st["seed"])
         elif k in ("with", "move_with"):
             sc = scale_of(tris_of(idx, verts)) if idx else sc_hint
             c0 = verts[0] if verts else [Fraction(0), Fraction(0)]
@@ -808,6 +1150,34 @@ def a_steps(se, A, idx, verts, steps, pool, sc_hint):
                     cases += c2; ok = ok and ok2; hit += o2
                 except Band: pass
             A.up_sample(); A.neighborhood(); A.for_indexes(np.array([0], dtype=int))       # results discarded
+            if r.random() < 0.4 and isinstance(A.indices, np.ndarray) and A.indices.flags.writeable:
+                # the user re-wires one triangle: A.indices[row] = three (other) vertex numbers, in place; every later read
+                # is a function of the arrays as they are now
+                row = r.randrange(nt); new_row = [r.randrange(len(verts)) for _ in range(3)]
+                A.indices[row] = new_row
+                idx = [list(q) for q in idx]; idx[row] = new_row
+                base_idx, base_verts, edits = [list(q) for q in idx], [list(v) for v in verts], []
+                rw.append((row, new_row))
+                out = fr_tris(A.triangles)
+                rws = clist([f"(Rw {int(e[0])} (I3 {int(e[1][0])} {int(e[1][1])} {int(e[1][2])}))" for e in rw])
+                cases.append(f"(KARewires {catri(rbase_idx, rbase_verts)} {rws} {ctris(out)})")
+                c2, ok2, _, _ = array_op(A, idx, verts, "tris")
+                cases += c2; ok = ok and ok2
+                c2, ok2, _, _ = array_op(A, idx, verts, "area")
+                cases += c2; ok = ok and ok2
+                which = ("up", "nbr", "for")[st["seed"] % 3] if nt <= 8 else "for"
+                c2, ok2, _, _ = array_op(A, idx, verts, which, [row] if which == "for" else None)
+                cases += c2; ok = ok and ok2
+                for sh, P in pool.values():
+                    try:
+                        check_band(sh, tris_of(idx, verts), False)
+                        c2, ok2, _ = contain_op(A, tris_of(idx, verts), sh, P, lambda o, i_=idx, v_=verts, s_=sh: f"(KAContain {catri(i_, v_)} {cshape(s_)} {cnats(o)})")
+                        cases += c2; ok = ok and ok2
+                    except Band: pass
+                same = (bool(np.array_equal(np.asarray(A.indices), np.array(idx, dtype=int).reshape(-1, 3))) and fr_pts(A.vertices) == verts)
+                se.add(name + ":index-row", cases, ok and same, out)
+                if not same: return
+                continue
             j = r.randrange(len(verts))
             p = [verts[j][0] + sc * Fraction(r.randint(-6, 6), 4), verts[j][1] + sc * Fraction(r.randint(-6, 6), 4)]
             u = r.random()
@@ -821,6 +1191,7 @@ def a_steps(se, A, idx, verts, steps, pool, sc_hint):
             A.vertices[j] = [float(p[0]), float(p[1])]
             verts = [list(v) for v in verts]; verts[j] = p
             edits.append((j, p))
+            rbase_idx, rbase_verts, rw = [list(q) for q in idx], [list(v) for v in verts], []
             # ... and again AFTER it: triangles, area, the pooled shapes, and one of up_sample / neighborhood / for_indexes
             out = fr_tris(A.triangles)
             es = clist([f"(Ed {int(e[0])} {cpt(e[1])})" for e in edits])
@@ -846,6 +1217,7 @@ def a_steps(se, A, idx, verts, steps, pool, sc_hint):
         if k.startswith("move_") and R is not None and len(R.indices):
             A = R; idx, verts = atri_of(R)
             base_idx, base_verts, edits = [list(q) for q in idx], [list(v) for v in verts], []
+            rbase_idx, rbase_verts, rw = [list(q) for q in idx], [list(v) for v in verts], []
 
 def c_steps(se, C, steps, pool):
     S0 = cs_of(C); it = fr_tris(C.triangles); keep = np.array(C.coordinates).copy()
@@ -859,7 +1231,7 @@ def c_steps(se, C, steps, pool):
             cases, ok, out, R = coord_op(C, S0, it, k.replace("move_", ""))
         elif k in ("for", "move_for"):
             sel = [r.randrange(nc) for _ in range(r.randint(1, nc + 1))]
-            cases, ok, out, R = coord_op(C, S0, it, "for", sel)
+            cases, ok, out, R = coord_op(C, S0, it, "for", sel, r.choice(SELKINDS), st["seed"])
         elif k == "contain":
             got = pool_shape(pool, st, it, True)
             if got is None:
@@ -959,12 +1331,26 @@ def run_case(inp):
                 {"k": "up", "seed": 6}]
         c_steps(se, C, last, {})
         return se.row(op, True)
-    if op.startswith("a_") and op != "a_limits":
-        A, idx, verts = mk_array(inp)
+    if op.startswith("a_") and op not in ("a_limits", "a_grid"):
+        A, idx, verts = mk_array(inp, allow32=op != "a_contain")
+        note_kind("vertices:" + (type(A.vertices).__name__ if not isinstance(A.vertices, np.ndarray) else
+                                 A.vertices.dtype.name + ("" if A.vertices.flags.c_contiguous else ":strided") +
+                                 ("" if A.vertices.flags.writeable else ":read-only")))
+        note_kind("indices:" + A.indices.dtype.name)
+        if op == "a_for": note_kind("selection:" + inp.get("selk", "arr"))
+        if op == "a_contain":
+            note_kind("shape-args:" + inp["shape"].get("pk", "float"))
         base = {"kind": op, "nontrivial": len(idx) >= 2, "py_ok": None}
         return array_ops(A, idx, verts, op[2:], inp, base)
-    if op in ("a_limits", "al_up", "al_nbr", "al_for", "al_contain"):
-        y0, y1, x0, x1 = [F(v) for v in inp["lims"]]; sc = F(inp["scale"])
+    if op in ("a_limits", "a_grid", "al_up", "al_nbr", "al_for", "al_contain"):
+        if op == "a_grid":
+            # sibling constructor for_grid: the extreme coordinates and the pixel scale of the grid go to for_limits_and_scale
+            grid = aa.Grid2D.uniform(shape_native=tuple(inp["shape"]), pixel_scales=float(F(inp["ps"])),
+                                     origin=(float(F(inp["origin"][0])), float(F(inp["origin"][1]))))
+            gy, gx = np.asarray(grid)[:, 0], np.asarray(grid)[:, 1]
+            y0, y1, x0, x1 = frac(gy.min()), frac(gy.max()), frac(gx.min()), frac(gx.max()); sc = F(inp["ps"])
+        else:
+            y0, y1, x0, x1 = [F(v) for v in inp["lims"]]; sc = F(inp["scale"])
         if y1 == y0:      # np.arange(y, y + height, height): the row count ceil(((y+height)-y)/height) is rounding-dependent
             return skip(op)
         mag = max(abs(v) for v in (y0, y1, x0, x1)) + 2 * sc
@@ -972,10 +1358,18 @@ def run_case(inp):
         slack = Fraction(1, 10 ** 9) + mag / sc / 2 ** 40
         for v in ((y1 + sc * h - y0) / (sc * h), (x1 + sc - x0) / sc, (x1 + sc - x0 + sc / 2) / sc):
             if v != round(v) and abs(v - round(v)) < slack: return skip(op)
-        A = ArrayTriangles.for_limits_and_scale(float(y0), float(y1), float(x0), float(x1), float(sc))
+        if op == "a_grid":
+            keep_g = np.array(grid).copy()
+            A = ArrayTriangles.for_grid(grid)
+            B = ArrayTriangles.for_limits_and_scale(float(y0), float(y1), float(x0), float(x1), float(sc))
+            ok_g = (isinstance(A, ArrayTriangles) and bool(np.array_equal(A.indices, B.indices))
+                    and bool(np.array_equal(A.vertices, B.vertices)) and bool(np.array_equal(np.array(grid), keep_g)))
+        else:
+            A = ArrayTriangles.for_limits_and_scale(float(y0), float(y1), float(x0), float(x1), float(sc))
+            ok_g = None
         idx, verts = atri_of(A)
-        base = {"kind": op, "nontrivial": len(idx) >= 2, "py_ok": None}
-        if op == "a_limits":
+        base = {"kind": op, "nontrivial": len(idx) >= 2, "py_ok": ok_g}
+        if op in ("a_limits", "a_grid"):
             tl = tols_for(sc, mag)
             coq = f"(KALimits {ctl(tl)} {cqd(h)} {cqd(y0)} {cqd(y1)} {cqd(x0)} {cqd(x1)} {cqd(sc)} {catri(idx, verts)})"
             return dict(base, coq=coq, out={"n_triangles": len(idx), "n_vertices": len(verts), "indices": idx[:12]})
@@ -990,7 +1384,12 @@ def run_case(inp):
         x0, x1, y0, y1 = [F(v) for v in inp["lims"]]; sc = F(inp["scale"])
         for v in (y0 / (h * sc), y1 / (h * sc)):      # int() of a quotient by the irrational height
             if v != 0 and abs(v - round(v)) < MARGIN: return skip(op)
-        C = CoordinateArrayTriangles.for_limits_and_scale(float(x0), float(x1), float(y0), float(y1), float(sc))
+        if inp.get("dflt") and sc == 1:       # the default scale
+            C = CoordinateArrayTriangles.for_limits_and_scale(float(x0), float(x1), float(y0), float(y1))
+        elif inp.get("dflt"):
+            C = CoordinateArrayTriangles.for_limits_and_scale(x_min=float(x0), y_max=float(y1), y_min=float(y0), x_max=float(x1), scale=float(sc))
+        else:
+            C = CoordinateArrayTriangles.for_limits_and_scale(float(x0), float(x1), float(y0), float(y1), float(sc))
         out = cs_of(C)
         tl = tols_for(sc, sc)
         coq = f"(KCLimits {ctl(tl)} {cqd(h)} {cqd(x0)} {cqd(x1)} {cqd(y0)} {cqd(y1)} {cqd(sc)} {ccs(out)})"
@@ -998,6 +1397,8 @@ def run_case(inp):
                 "nontrivial": len(out["coords"]) >= 2, "kind": op}
     if op.startswith("c_"):
         C = mk_coord(inp)
+        note_kind("coordinates:" + np.asarray(C.coordinates).dtype.name + ("+defaults" if inp.get("dflt") else ""))
+        if op == "c_for": note_kind("selection:" + inp.get("selk", "arr"))
         S0 = cs_of(C)
         it = fr_tris(C.triangles)
         keep = np.array(C.coordinates).copy()
@@ -1009,14 +1410,14 @@ def run_case(inp):
         if sub == "contain":
             sh = shape_for(inp["shape"], it, True)
             if sh is None: return skip(base["kind"])
-            cases, ok, out = contain_op(C, it, sh, py_shape(sh), coord_contain_case(S0, it, sh))
+            cases, ok, out = contain_op(C, it, sh, py_shape(sh, inp["shape"].get("pk", "float")), coord_contain_case(S0, it, sh))
             extra = {"shape": str(sh)[:300]}
         else:
             arg = None
             if sub == "for":
                 r = random.Random(inp["selseed"]); n = len(S0["coords"])
                 arg = [r.randrange(n) for _ in range(r.randint(0, n + 1))]
-            cases, ok, out, _ = coord_op(C, S0, it, sub, arg)
+            cases, ok, out, _ = coord_op(C, S0, it, sub, arg, inp.get("selk", "arr"), inp.get("selseed", 0))
             if sub == "tris":
                 c2, ok2, out2, _ = coord_op(C, S0, it, "area")
                 cases += c2; ok = ok and ok2; out = dict(out, **out2)
@@ -1029,7 +1430,7 @@ def run_case(inp):
         sc = F(inp.get("sc", "1"))
         vs = [[sc * Fraction(r.randint(-8, 8), 4), sc * Fraction(r.randint(-8, 8), 4)] for _ in range(inp["nv"])]
         try:
-            P = SH.Polygon([(float(p[0]), float(p[1])) for p in vs])
+            P = py_shape(("polygon", vs), inp.get("pk", "float"))
             out = ("ok", [frac(P.x), frac(P.y)])
         except Exception as e:
             out = ("raise", exn_name(e))
